@@ -360,6 +360,64 @@ def check_enum(case):
     return check_class(case)
 
 
+def spiral_spec(n, mirror, distinct):
+    """ The spiral of arXiv:1804.07832 with n turns (a unit, n nested caps, a
+    counit in the middle, n cups): its normalisation takes a number of
+    interchanges cubic in n, and many more passes than it has boxes. """
+    x = ["a", 0]
+    width, layers = 0, []
+
+    def add(name, nd, nc, off, k=""):
+        nonlocal width
+        layers.append([{"k": "box", "name": name + (str(k) if distinct else ""),
+                        "dom": [x] * nd, "cod": [x] * nc, "dag": False}, off])
+        width += nc - nd
+    add("unit", 0, 1, 0)
+    for i in range(n):
+        add("cap", 0, 2, i, i)
+    add("counit", 1, 0, n)
+    for i in range(n):
+        add("cup", 2, 0, n - i - 1, i)
+    spec = {"cls": "monoidal", "dom": [], "layers": layers}
+    if mirror:
+        out = []
+        for (b, off), scan in zip(layers, specs.scans(spec)):
+            out.append([b, len(scan) - off - len(b["dom"])])
+        spec = dict(spec, layers=out)
+    return spec
+
+
+def enum_spirals(tier):
+    for n in range(1, 8 if tier == "thorough" else 6):
+        for mirror in (False, True):
+            for left in (False, True):
+                for distinct in (False, True):
+                    yield {"n": n, "mirror": mirror, "left": left,
+                           "distinct": distinct}
+
+
+def check_spiral(case):
+    spec = spiral_spec(case["n"], case["mirror"], case["distinct"])
+    left = case["left"]
+    d, nf, nsteps = nf_checks(spec, left, None)
+    # members of the class taken from the rewrite trace itself
+    trace = list(itertools.islice(d.normalize(left=left), nsteps + 1))
+    ref = specs.dkey(nf)
+    for step in trace[::max(1, len(trace) // 6)]:
+        member = specs.build(specs.spec_of(step, "monoidal"))
+        try:
+            onf = capped_nf(member, left, 10 * len(member) ** 3 + 100)
+        except (StepCap, NotImplementedError) as exc:
+            raise Violation("C06:not-canonical", "{}: {!r}".format(
+                member, exc))
+        require(specs.dkey(onf) == ref, "C06:not-canonical",
+                lambda: "{} (a step of the normalisation of the spiral) has "
+                "normal form {} instead of {}".format(member, onf, nf))
+    return dict(nt=nsteps > 2 * len(d), labels=["spiral%d" % case["n"]],
+                show="spiral({}) mirror={} left={}: {} steps".format(
+                    case["n"], case["mirror"], left, nsteps))
+
+
 core.register("C06", [
     Facet("classes", class_cases, check_class, n_quick=640, shards_quick=8,
           shards_thorough=16, n_thorough=500, rule=RULE),
@@ -374,6 +432,11 @@ core.register("C06", [
           shards_quick=16, rule="all connected diagrams with <= 4 boxes, "
           "arities <= 2, width <= 3 (thorough: also 5 boxes, width <= 2), one "
           "wire type, both directions; whole classes by BFS"),
+    Facet("spirals", None, check_spiral, enum=enum_spirals, shards_quick=16,
+          rule="spirals with 1-5 turns (thorough: 7) and their mirror "
+          "images, equal or distinct boxes, both directions: the worst case "
+          "for the number of passes; non-trivial = more steps than twice the "
+          "number of boxes"),
 ], rule=RULE, assumptions=[
     "interchanger-equivalence classes are enumerated with the harness model "
     "O3, not with the library's interchange",
